@@ -109,6 +109,8 @@ func exec(in string) (out string) {
 	return out
 }
 
+var gcCases int // hold cases executed so far (exec is called from one goroutine for H lines)
+
 // a held observation: the strings are converted to hex only when the session is over
 type held struct {
 	pre     string
@@ -186,8 +188,14 @@ func exec1(in string, partial *[]string) string {
 		for i := range ss {
 			js = append(js, shell.Join(ss[:i+1]))
 		}
+		gcCases++
+		if len(ss)%3 == 0 && (gcCases <= 300 || gcCases%97 == 0) {
+			// a GC empties the pools; a result must not depend on the buffer it was built in.  (Only
+			// for the first few hundred hold cases and then now and again: the generator's own heap
+			// makes every collection slow in the thorough tier.)
+			runtime.GC()
+		}
 		if len(ss)%3 == 0 {
-			runtime.GC() // empties the pools; a result must not depend on the buffer it was built in
 			_ = shell.Quote(" overwrite the pooled buffer once more ")
 		}
 		return tr.HexList(qs) + ";" + tr.HexList(js)
@@ -446,7 +454,10 @@ func main() {
 					go func() {
 						defer wg.Done()
 						const window = 64
-						type pend struct{ in, out string }
+						type pend struct {
+							in, out string
+							raw     bool // out is the returned string itself (held), not a finished trace output
+						}
 						for i := 0; i < g.Scale(8, 300); i++ {
 							var ps []pend
 							for j := 0; j < window; j++ {
@@ -456,19 +467,21 @@ func main() {
 									in := "Q " + tr.Hex(ss[0])
 									var out string
 									if p := tr.Catch(func() { out = shell.Quote(ss[0]) }); p != "" {
-										out = "PANIC"
+										ps = append(ps, pend{in, "PANIC", false})
+									} else {
+										ps = append(ps, pend{in, out, true})
 									}
-									ps = append(ps, pend{in, out})
 								case 1:
 									in := "J " + tr.HexList(ss)
 									var out string
 									if p := tr.Catch(func() { out = shell.Join(ss) }); p != "" {
-										out = "PANIC"
+										ps = append(ps, pend{in, "PANIC", false})
+									} else {
+										ps = append(ps, pend{in, out, true})
 									}
-									ps = append(ps, pend{in, out})
 								default:
 									in := "R " + tr.HexList(ss)
-									ps = append(ps, pend{in, "=" + exec(in)})
+									ps = append(ps, pend{in, exec(in), false})
 								}
 								if j%16 == 5 {
 									runtime.Gosched()
@@ -476,13 +489,10 @@ func main() {
 							}
 							mu.Lock()
 							for _, p := range ps {
-								switch {
-								case p.out == "PANIC":
-									g.W.Case(p.in, "PANIC", true, "concurrent")
-								case strings.HasPrefix(p.out, "="):
-									g.W.Case(p.in, p.out[1:], true, "concurrent")
-								default:
+								if p.raw {
 									g.W.Case(p.in, tr.Hex(p.out), true, "concurrent-held")
+								} else {
+									g.W.Case(p.in, p.out, true, "concurrent")
 								}
 							}
 							mu.Unlock()
